@@ -14,6 +14,8 @@ def _reexec_if_needed() -> None:
         "TF_ENABLE_ONEDNN_OPTS": "0",
         "CUDA_VISIBLE_DEVICES": "",
         "SEDPACK_VERIF": "1",
+        "TQDM_DISABLE": "1",
+        "PYTHONWARNINGS": "ignore",
     }
     if all(os.environ.get(k) == v for k, v in want.items()):
         return
@@ -26,6 +28,8 @@ def main() -> int:
     _reexec_if_needed()
     # `python simlib/main.py` puts simlib/ first on sys.path; we want /verif.
     sys.path[0] = VERIF
+    import warnings
+    warnings.filterwarnings("ignore")
     from simlib import runner
     argv = sys.argv[1:]
     if not argv:
